@@ -425,6 +425,7 @@ func checkCase(c Case) error {
 			for seq := uint32(0); seq < uint32(c.PerSender); seq++ {
 				size := c.Sizes[int(seq)%len(c.Sizes)]
 				h := qnet.NewHeader(qnet.Event, s, seq, seq%7, s*1000000+seq)
+				h.Flags = uint8(s*31 + seq*7 + 1) // every field of the header travels
 				m := qnet.NewMessage(h, payload(s, seq, size))
 				if atomic.AddInt32(&inFlight, 1) > 1 {
 					atomic.StoreInt32(&overlap, 1)
@@ -499,7 +500,7 @@ collect:
 		}
 		next[s]++
 		size := c.Sizes[int(seq)%len(c.Sizes)]
-		if m.Header.ID != s*1000000+seq || m.Header.Action != seq%7 || !bytes.Equal(m.Payload, payload(s, seq, size)) {
+		if m.Header.ID != s*1000000+seq || m.Header.Action != seq%7 || m.Header.Flags != uint8(s*31+seq*7+1) || m.Header.Type != qnet.Event || m.Header.Magic != qnet.Magic || m.Header.Version != qnet.Version || !bytes.Equal(m.Payload, payload(s, seq, size)) {
 			return vt.Violationf("C10:corrupt:"+c.Transport, "message %d/%d arrived with a different header or payload", s, seq)
 		}
 	}
